@@ -13,7 +13,9 @@ logging.disable(logging.CRITICAL)
 import haiway.helpers.caching as C
 from haiway import cache
 
-KEYS = [((1,), {}), ((1.0,), {}), ((True,), {}), ((), {"x": 1})]
+KEYS = [((1,), {}), ((1.0,), {}), ((True,), {}),
+        # the same equal-but-differently-typed values passed by keyword, and mixed positional / keyword forms
+        ((), {"x": 1}), ((), {"x": 1.0}), ((), {"x": True}), ((1,), {"x": 1.0}), ((1.0,), {"x": 1})]
 
 
 class Recv:
@@ -125,6 +127,17 @@ def search(maxlen):
                         p = run_history(variant, limit, expiration, ops)
                         if p:
                             return n, dict(variant=variant, limit=limit, expiration=expiration, history=list(ops), problem=p)
+    # the keyword forms: exhaustive up to length maxlen-1 over the three keyword keys, sync and async
+    kw_calls = [("call", k, 0) for k in (3, 4, 5)]
+    for variant in ("sync", "method", "async"):
+        for limit in (1, 3):
+            for ln in range(1, maxlen):
+                for ops in itertools.product(kw_calls, repeat=ln):
+                    n += 1
+                    p = run_history(variant, limit, None, ops)
+                    if p:
+                        return n, dict(variant=variant, limit=limit, expiration=None, history=list(ops), problem=p)
+    calls = [("call", k, r) for k in range(len(KEYS)) for r in range(2)]
     # longer random histories (the exhaustive part stops at length maxlen+1): clock steps of half the expiration, so that
     # lookups, insertions and evictions often happen at the very instant an entry reaches its expiration
     import random
